@@ -108,6 +108,21 @@ def check_grid(case):
     return {"nontrivial": bool(nontrivial), "labels": ["kind:grid", "how:" + case["how"], "grid:dyadic" if dyadic else "grid:non-dyadic", "grid:span-multiple" if abs(ratio - round(ratio)) <= 1e-9 else "grid:span-not-multiple"]}
 
 
+def upstream_stock(rp, junc, ti, _seen=None):
+    """people held by the non-junction compartments that feed a junction (through chains of junctions)"""
+    _seen = _seen or set()
+    if id(junc) in _seen:
+        return 0.0
+    _seen.add(id(junc))
+    tot = 0.0
+    for k in junc.inlinks:
+        if isinstance(k.source, rp.Junc):
+            tot += upstream_stock(rp, k.source, ti, _seen)
+        elif not isinstance(k.source, rp.Src):
+            tot += abs(float(rp.cv[k.source][ti]))
+    return tot
+
+
 def check_model(spec):
     b, res = simcase.run_any(spec)
     # the engine must integrate on the grid it reports
@@ -127,7 +142,9 @@ def check_model(spec):
                 if not np.isfinite(p):
                     continue  # amount / denormal stock overflows in the reference as well (C02 decides those)
                 if isinstance(l.source, rp.Junc):
-                    src_size = float(sum(abs(rp.lv[k][ti]) for k in l.source.inlinks))  # what passes through the junction this step
+                    # what passes through the junction this step; its inflows may be flush links (stock minus the other outflows), so
+                    # they carry the rounding error of the stocks upstream: the tolerance gains 1e-12 x those stocks (1e-3 here x 1e-9 below)
+                    src_size = float(sum(abs(rp.lv[k][ti]) for k in l.source.inlinks)) + 1e-3 * upstream_stock(rp, l.source, ti)
                 elif isinstance(l.source, rp.Src):
                     src_size = abs(p)
                 else:
